@@ -81,7 +81,7 @@ Record variant := Variant {
   v_trailing_spins : bool;      (* cgo build: streaming czlib reader, never returns when bytes follow
                                    the end of the zlib stream (repaired: one inflate call) *)
   v_inflate_unbounded : bool    (* the whole stream is inflated before its length is compared with
-                                   raw_size (repaired c12edc1: at most raw_size + 1 bytes) *)
+                                   raw_size (repaired 066d256: at most raw_size + 1 bytes) *)
 }.
 Definition legacy : variant := Variant true true true true true true.
 Definition current : variant := Variant false false false false false false.
